@@ -21,7 +21,7 @@ from onsager import GFcalc, OnsagerCalc, PowerExpansion, cluster, crystal
 from onsager import crystalStars as stars
 from simkit.core import RunBase, Violation, fhex, short_hash
 
-from engines.calcworld import ALL_WORLDS, CHEM, CRYSTALS, QUICK_WORLDS, Pool, SimFile, world_data
+from engines.calcworld import ALL_WORLDS, CHEM, CRYSTALS, QUICK_WORLDS, Pool, SimFile, world_data, world_jumpnetwork
 
 OM2 = {"default": {}, "small": {"large_om2": 0.0}, "large": {"large_om2": float("inf")}}
 SCRIBBLES = ("scale", "zero", "nan", "add")
@@ -105,7 +105,7 @@ class Run(RunBase):
             crys = CRYSTALS[world["crystal"]][0]()
             self.decoy_on(crys, world["pool_seed"])
             chem = self.wd.chem
-            jn_ = crys.jumpnetwork(chem, self.wd.cut)
+            jn_ = world_jumpnetwork(crys, chem, self.wd.cut, self.wd.lengths)
             if world["pool_seed"] % 2:
                 # a hand-ordered but legal jump network: all forward jumps of a type first, then all reverses
                 jn_ = [jl[0::2] + jl[1::2] for jl in jn_]
@@ -1087,7 +1087,7 @@ class Run(RunBase):
                 self.fail("yaml-pairstate", "PairState {} differs after YAML round trip: {}".format(st, s2))
         elif what in ("yaml:clustersite", "yaml:cluster"):
             if not hasattr(self, "_clusters"):
-                ce = cluster.makeclusters(crys, 1.01 * self.wd.cut, 3)
+                ce = cluster.makeclusters(crys, min(1.01 * self.wd.cut, 1.5), 3)
                 jn = self.wd.jumpnetwork
                 vce = cluster.makeVacancyClusters(crys, self.wd.chem, ce)
                 ts = cluster.makeTSclusters(crys, self.wd.chem, jn, ce)
